@@ -415,8 +415,10 @@ func (s *session) continueUntilWait(sprint *sprint, currentRun flows.Run, node f
 			numNewSteps++
 
 			if numNewSteps > s.engine.Options().MaxStepsPerSprint {
-				// we've hit the step limit - usually a sign of a loop
-				failRun(sprint, currentRun, step, fmt.Errorf("reached maximum number of steps per sprint (%d)", s.engine.Options().MaxStepsPerSprint))
+				// we've hit the step limit - usually a sign of a loop.. the failure belongs to the last step of the
+				// current run (if it has one), which isn't necessarily the last step we visited
+				limitStep, _, _ := currentRun.PathLocation()
+				failRun(sprint, currentRun, limitStep, fmt.Errorf("reached maximum number of steps per sprint (%d)", s.engine.Options().MaxStepsPerSprint))
 			} else {
 				node = currentRun.Flow().GetNode(destination)
 				if node == nil {
